@@ -147,10 +147,11 @@ def agg_mode_apply_numba_signature : List String := ["x", "group", "drop_na"]
 /-- the calls of dataiter/aggregate.py: mode_apply_numba in the order Python makes them along the source text -/
 def agg_mode_apply_numba_call_order : List String := ["yield_groups_numba", "len", "len", "np.full", "len", "range", "len", "range", "np.argmax", "out.append", "out.append"]
 
-/-- dataiter/aggregate.py: count_unique_apply_numba (sha256 of the function source: b8460ddbdbf09f06) -/
+/-- dataiter/aggregate.py: count_unique_apply_numba (sha256 of the function source: 7318b9d95d44cce7) -/
 def agg_count_unique_apply_numba (truth : Term → Bool) : Out :=
   let out' : Term := (Term.app "list" []);
-  let eff0 : Term := (Term.app "for" [(Term.sym "xg"), (Term.app "yield_groups_numba" [(Term.sym "x"), (Term.sym "group"), (Term.sym "drop_na")]), (Term.app "block" [(Term.app ".append" [out', (Term.app "len" [(Term.app "np.unique" [(Term.sym "xg")])])])])]);
+  let eff0 : Term := (Term.app "for" [(Term.sym "xg"), (Term.app "yield_groups_numba" [(Term.sym "x"), (Term.sym "group"), (Term.sym "drop_na")]), (Term.app "block" [(Term.app "assign" [(Term.sym "na"), (Term.app "is_na_numba" [(Term.sym "xg")])]), (Term.app ".append" [out', (Term.app "Add" [(Term.app "len" [(Term.app "np.unique" [(Term.app "getitem" [(Term.sym "xg"), (Term.app "~" [(Term.sym "na")])])])]), (Term.app ".sum" [(Term.sym "na")])])])])]);
+  let na' : Term := (Term.app "value-after-loop" [(Term.sym "na"), eff0]);
   Out.ret [eff0] out'
 
 /-- the decorators of dataiter/aggregate.py: count_unique_apply_numba, outermost first -/
@@ -160,7 +161,7 @@ def agg_count_unique_apply_numba_decorators : List String := ["njit(cache=datait
 def agg_count_unique_apply_numba_signature : List String := ["x", "group", "drop_na"]
 
 /-- the calls of dataiter/aggregate.py: count_unique_apply_numba in the order Python makes them along the source text -/
-def agg_count_unique_apply_numba_call_order : List String := ["yield_groups_numba", "np.unique", "len", "out.append"]
+def agg_count_unique_apply_numba_call_order : List String := ["yield_groups_numba", "is_na_numba", "np.unique", "len", "na.sum", "out.append"]
 
 /-- dataiter/aggregate.py: quantile_apply_numba (sha256 of the function source: 88f87ef1906a9386) -/
 def agg_quantile_apply_numba (truth : Term → Bool) : Out :=
